@@ -107,8 +107,8 @@ where
             let msg = panic_message(p);
             if msg.starts_with("deadlock!") {
                 Outcome::Deadlock(msg)
-            } else if msg.starts_with("exceeded max_steps") {
-                Outcome::MaxSteps(msg)
+            } else if msg.starts_with("exceeded max_steps") || msg.starts_with("no task was scheduled") {
+                Outcome::MaxSteps(format!("no progress event for {} scheduling steps (or step budget exhausted): {msg}", crate::sched::NO_PROGRESS_STEPS))
             } else {
                 let loc = take_panic_location().unwrap_or_default();
                 Outcome::Panic(format!("{msg} @ {loc}"))
@@ -258,8 +258,8 @@ where
                 let msg = panic_message(p);
                 let outcome = if msg.starts_with("deadlock!") {
                     Outcome::Deadlock(msg)
-                } else if msg.starts_with("exceeded max_steps") {
-                    Outcome::MaxSteps(msg)
+                } else if msg.starts_with("exceeded max_steps") || msg.starts_with("no task was scheduled") {
+                    Outcome::MaxSteps(format!("no progress event for {} scheduling steps (or step budget exhausted): {msg}", crate::sched::NO_PROGRESS_STEPS))
                 } else {
                     let loc = take_panic_location().unwrap_or_default();
                     Outcome::Panic(format!("{msg} @ {loc}"))
